@@ -98,12 +98,21 @@ def extract(spec, repo, outdir):
         raise ExtractionBreak("%s: anchor /%s/ matches %d times in %s (must be exactly 1)" %
                               (spec["name"], spec["anchor"], len(ms), spec["file"]))
     m = ms[0]
-    b0 = text.find("{", m.end() - 1 if text[m.end() - 1] == "{" else m.end())
-    between = text[m.end():b0]
-    if b0 < 0 or not re.fullmatch(r"[\s]*(const)?[\s]*(noexcept)?[\s]*(//[^\n]*\n|\s)*", between):
-        raise ExtractionBreak("%s: unexpected text between header and body: %r" % (spec["name"], between[:80]))
-    b1 = _scan_block(text, b0)
-    src = text[b0:b1]
+    if spec.get("region_end"):
+        # a statement region inside a function: from the start of the anchor match up to (not including)
+        # the first match of region_end after it; emitted wrapped in braces
+        me = re.compile(spec["region_end"], re.S).search(text, m.end())
+        if not me:
+            raise ExtractionBreak("%s: region end /%s/ not found" % (spec["name"], spec["region_end"]))
+        b0, b1 = m.start(), me.start()
+        src = text[b0:b1]
+    else:
+        b0 = text.find("{", m.end() - 1 if text[m.end() - 1] == "{" else m.end())
+        between = text[m.end():b0]
+        if b0 < 0 or not re.fullmatch(r"[\s]*(const)?[\s]*(noexcept)?[\s]*(//[^\n]*\n|\s)*", between):
+            raise ExtractionBreak("%s: unexpected text between header and body: %r" % (spec["name"], between[:80]))
+        b1 = _scan_block(text, b0)
+        src = text[b0:b1]
     line0 = text.count("\n", 0, b0) + 1
     line1 = text.count("\n", 0, b1) + 1
     body = strip_comments(src)
@@ -111,7 +120,12 @@ def extract(spec, repo, outdir):
     for rule in spec.get("rules", []):
         rx, repl, cnt = rule
         body, k = re.subn(rx, repl, body, flags=re.S)
-        ok = (k == cnt) if isinstance(cnt, int) else (k >= int(cnt[2:]))
+        if isinstance(cnt, int):
+            ok = (k == cnt)
+        elif cnt == "=0or1":
+            ok = k in (0, 1)
+        else:
+            ok = k >= int(cnt[2:])
         fired.append({"rule": rx, "fired": k, "expected": cnt})
         if not ok:
             raise ExtractionBreak("%s: rule /%s/ fired %d times, expected %s (source changed shape: %s:%d)" %
@@ -127,7 +141,7 @@ def extract(spec, repo, outdir):
     if spec.get("pre"):
         out.append(spec["pre"])
     out.append(spec["sig"])
-    out.append(body)
+    out.append(("{\n" + body + "\n" + spec.get("region_epilogue", "") + "}") if spec.get("region_end") else body)
     if spec.get("post"):
         out.append(spec["post"])
     emitted = "\n".join(out) + "\n"
